@@ -8,7 +8,7 @@ EXTENDS Integers, Sequences, FiniteSets, TLC
 
 Cells == {"interval", "triangle", "tetrahedron", "quadrilateral", "hexahedron"}
 Simplex(c) == c \in {"interval", "triangle", "tetrahedron"}
-Tdim(c) == CASE c = "interval" -> 1 [] c \in {"triangle", "quadrilateral"} -> 2 [] OTHER -> 3
+Tdim(c) == CASE c = "interval" -> 1 [] c \in {"triangle", "quadrilateral"} -> 2 [] OTHER -> 3   \* incl. prism
 
 \* element kinds (argument / coefficient spaces)
 Elems == {"P1", "P2", "P3", "DG0", "DG1", "vP1", "vP2", "symP1", "TH", "RT1", "N1", "BDM1", "RTxDG0",
@@ -71,6 +71,33 @@ Valid(c) ==
 
 ValidCases == {c \in Case : Valid(c)}
 
+---------------------------------------------------------------------------
+(* facet and vertex integrals (C02, C03) *)
+FCells == Cells \cup {"prism"}
+Measures == {"ds", "dS", "dP"}
+FTerms == {"mass", "flux", "coef", "xw", "nload", "fload", "area",          \* ds / dP
+           "jump", "avgflux", "pm", "coefpm", "jumpload", "njump"}            \* dS
+FRank(t) == CASE t \in {"nload", "fload", "jumpload"} -> 1 [] t = "area" -> 0 [] OTHER -> 2
+FElems == {"P1", "P2", "DG0", "DG1", "vP1", "RT1", "N1", "TH"}
+FCase == [cell : FCells, elem : FElems, term : FTerms, measure : Measures, rule : {"exact", "custom", "vertex"}]
+
+FValid(c) ==
+  /\ (c.measure = "dS" <=> c.term \in {"jump", "avgflux", "pm", "coefpm", "jumpload", "njump"})
+  /\ (c.measure = "dP" => c.term \in {"mass", "coef", "fload"} /\ c.elem \in {"P1", "P2", "vP1"} /\ c.rule = "exact"
+                          /\ c.cell # "prism")
+  /\ (c.elem \in {"RT1", "N1", "TH"} => c.cell \in {"triangle", "tetrahedron"})
+  /\ (c.term \in {"flux", "avgflux"} => c.elem \in {"P1", "P2", "DG1", "vP1"})
+  /\ (c.term \in {"xw", "nload", "njump"} => c.elem \in {"P1", "P2", "DG1", "DG0"})
+  /\ (c.cell = "prism" => c.elem \in {"P1", "DG0"} /\ c.measure = "ds" /\ c.rule = "exact")
+  /\ (c.cell = "interval" => c.rule = "exact")
+  /\ (c.rule = "vertex" => c.cell \in {"triangle", "tetrahedron", "quadrilateral"} /\ c.measure # "dP")
+  /\ (c.cell = "hexahedron" => c.elem \in {"P1", "DG0", "DG1"})
+  /\ (c.cell = "tetrahedron" => c.elem # "P2" \/ c.term \in {"mass", "jump", "fload"})
+  /\ (c.rule = "exact" => (IF c.elem \in {"P2", "TH"} THEN FRank(c.term) < 2 \/ Tdim(c.cell) <= 2 ELSE TRUE))
+ValidFCases == {c \in FCase : FValid(c)}
+
+ASSUME PrintT(<<"NFCASES", Cardinality(ValidFCases)>>)
+ASSUME \A c \in ValidFCases : PrintT(<<"FCASE", c>>)
 ASSUME PrintT(<<"NCASES", Cardinality(ValidCases)>>)
 ASSUME \A c \in ValidCases : PrintT(<<"CASE", c>>)
 =============================================================================
